@@ -17,6 +17,10 @@
 //!      such line is outside reading (2) for that sequence;
 //!  (3) literal lines change neither depth nor comment state (falls out of (2):
 //!      lines after a literal `}` / `{` / `//` line are judged as if it were text);
+//!  (3') metamorphic monitor for (3): the sequence with every non-blank character of every
+//!      literal fragment replaced by `x` must give the same leading-blank count on every
+//!      output line and the same final depth (needs no whole-line model, so it also covers
+//!      lines mixing literal and ordinary fragments);
 //!  (4) the depth observed at the end (via `set_indent`, restored immediately)
 //!      equals the oracle's depth, in particular brace-balanced code restores the
 //!      starting depth.
@@ -455,6 +459,8 @@ struct Emitter<'r> {
     pending_lit: bool,
     /// probability (per mille) of cutting fragments at arbitrary characters
     wild_cut: u64,
+    /// may emit lines mixing a literal fragment with ordinary text (stops reading (2) for the sequence)
+    mixed: bool,
 }
 
 impl Emitter<'_> {
@@ -555,7 +561,24 @@ impl Emitter<'_> {
                 return;
             }
             *budget -= 1;
-            match self.rng.below(20) {
+            match self.rng.below(23) {
+                20..=22 if self.mixed => {
+                    // a literal fragment WITHOUT newline carrying an edge token, continued on the same
+                    // line by ordinary text that opens / closes a brace (judged by the literal-twin monitor)
+                    self.flush();
+                    let lit = pick_str(self.rng, &["// note", "//", "}", "} lit", "text {", "{", "// x {", "/// doc", "//}", "plain"]);
+                    let ord = pick_str(self.rng, &[" fn f() {\n", "{\n", " {\n", "}\n", " else {\n", "} else {\n", " x\n", "\n", " }\n"]);
+                    self.ops.push(Op::Lit(lit.to_string()));
+                    if self.rng.chance(1, 3) {
+                        self.ops.push(Op::Write(0, vec![ord.to_string()]));
+                    } else {
+                        self.ops.push(Op::Push(ord.to_string()));
+                    }
+                    if ord.ends_with("{\n") && self.rng.chance(3, 4) {
+                        self.stmts(depth + 1, budget, false);
+                        self.line("}", false);
+                    }
+                }
                 0..=5 => {
                     let l = plain_line(self.rng);
                     self.line(&l, false);
@@ -596,7 +619,7 @@ impl Emitter<'_> {
                     // append_src of a nested program (only at depth 0)
                     self.flush();
                     let wc = self.wild_cut;
-                    let mut inner = Emitter { rng: &mut *self.rng, ops: vec![], pending: String::new(), pending_lit: false, wild_cut: wc };
+                    let mut inner = Emitter { rng: &mut *self.rng, ops: vec![], pending: String::new(), pending_lit: false, wild_cut: wc, mixed: false };
                     let mut b = 6;
                     inner.stmts(0, &mut b, false);
                     inner.flush();
@@ -606,7 +629,7 @@ impl Emitter<'_> {
                 17 => {
                     // block through a write! template: "{hdr} {{\n{body}}}\n"
                     self.flush();
-                    let mut inner = Emitter { rng: &mut *self.rng, ops: vec![], pending: String::new(), pending_lit: false, wild_cut: 0 };
+                    let mut inner = Emitter { rng: &mut *self.rng, ops: vec![], pending: String::new(), pending_lit: false, wild_cut: 0, mixed: false };
                     let mut b = 3;
                     inner.stmts(depth + 1, &mut b, false);
                     inner.flush();
@@ -657,7 +680,8 @@ impl Emitter<'_> {
 }
 
 fn gen_program(rng: &mut Rng, wild_cut: u64) -> Vec<Op> {
-    let mut e = Emitter { rng, ops: vec![], pending: String::new(), pending_lit: false, wild_cut };
+    let mixed = rng.chance(1, 4);
+    let mut e = Emitter { rng, ops: vec![], pending: String::new(), pending_lit: false, wild_cut, mixed };
     let mut budget = e.rng.range(3, 14) as i64;
     while budget > 0 {
         e.stmts(0, &mut budget, true);
@@ -843,6 +867,90 @@ fn check_text(evs: &[Ev], buf: &str) -> bool {
     strip_lines(buf) == strip_lines(&input_text(evs))
 }
 
+fn has_literal(ops: &[Op]) -> bool {
+    ops.iter().any(|o| match o {
+        Op::Lit(s) => s.chars().any(|c| !c.is_whitespace()),
+        Op::Append(i) => has_literal(i),
+        _ => false,
+    })
+}
+
+/// The same sequence with every non-blank character of every literal fragment replaced by `x`
+/// (same length, newlines and blanks).
+fn literal_twin(ops: &[Op]) -> Vec<Op> {
+    ops.iter()
+        .map(|o| match o {
+            Op::Lit(s) => Op::Lit(s.chars().map(|c| if c.is_whitespace() { c } else { 'x' }).collect()),
+            Op::Append(i) => Op::Append(literal_twin(i)),
+            other => other.clone(),
+        })
+        .collect()
+}
+
+fn lead_len(l: &str) -> usize {
+    l.chars().take_while(|c| is_ws(*c)).count()
+}
+
+/// Reading (3), metamorphic form: what a literal fragment says must be irrelevant to every
+/// indentation / comment decision.  Returns false when a violation was reported.
+fn literal_twin_monitor(ops: &[Op], src: &mut Source, rep: &mut Report, replay: &dyn Fn(Value) -> Value) -> bool {
+    if !has_literal(ops) {
+        return true;
+    }
+    let twin = literal_twin(ops);
+    let mut tsrc = Source::default();
+    let mut tevs = vec![];
+    if let Err((msg, loc)) = corelib_mon::catch(|| exec(&twin, &mut tsrc, &mut tevs, &mut |_, _| true)) {
+        rep.violation(
+            "source:panic",
+            &format!("Source panicked at {loc}: {msg} on the literal twin of ops {}", clip(&shape(ops), 300)),
+            replay(json!({"panic": msg, "at": loc, "twin": twin.iter().map(op_json).collect::<Vec<_>>()})),
+        );
+        return false;
+    }
+    rep.count("literal_twins_run");
+    let (a, b) = (src.as_str().to_string(), tsrc.as_str().to_string());
+    let (la, lb): (Vec<&str>, Vec<&str>) = (a.split('\n').collect(), b.split('\n').collect());
+    let detail = |extra: Value| replay(json!({"twin_ops": twin.iter().map(op_json).collect::<Vec<_>>(), "buffer": a, "twin_buffer": b, "more": extra}));
+    if la.len() != lb.len() {
+        rep.violation(
+            "source:literal-content-affects-line-structure",
+            &format!("replacing the non-blank characters of the literal fragments by `x` changes the number of output lines ({} vs {}): {:?} vs {:?}", la.len(), lb.len(), clip(&a, 200), clip(&b, 200)),
+            detail(json!({})),
+        );
+        return false;
+    }
+    for (i, (x, y)) in la.iter().zip(lb.iter()).enumerate() {
+        if lead_len(x) != lead_len(y) {
+            rep.violation(
+                "source:literal-content-affects-later-indentation",
+                &format!(
+                    "output line {i} is indented by {} blank(s) ({:?}) but by {} ({:?}) when the non-blank characters of the literal fragments are replaced by `x`; literal text must not influence indentation or comment state; buffers {:?} vs {:?}",
+                    lead_len(x),
+                    clip(x, 60),
+                    lead_len(y),
+                    clip(y, 60),
+                    clip(&a, 300),
+                    clip(&b, 300)
+                ),
+                detail(json!({"line": i})),
+            );
+            return false;
+        }
+    }
+    rep.count_n("literal_twin_lines_compared", la.len() as u64);
+    let (da, db) = (probe_indent(src), probe_indent(&mut tsrc));
+    if da != db {
+        rep.violation(
+            "source:literal-content-affects-final-depth",
+            &format!("the indent level after the sequence is {da}, but {db} when the non-blank characters of the literal fragments are replaced by `x`; buffers {:?} vs {:?}", clip(&a, 300), clip(&b, 300)),
+            detail(json!({"depth": da, "twin_depth": db})),
+        );
+        return false;
+    }
+    true
+}
+
 /// Hand-written sequences run before the random ones (stable minimal witnesses).
 fn directed() -> Vec<Vec<Op>> {
     let p = |s: &str| Op::Push(s.to_string());
@@ -855,6 +963,11 @@ fn directed() -> Vec<Vec<Op>> {
         vec![p("// a {\n"), p("b {\n"), Op::Write(2, vec!["while c".into(), "d;\n".into()]), p("}\n")],
         vec![p("top {\n"), Op::Append(vec![p("in {\nx\n}\n")]), p("}\n")],
         vec![Op::Append(vec![p("in {\nx\n")]), p("y\n}\n")],
+        // literal text without newline, continued by ordinary text on the same line
+        vec![l("// note"), p(" fn f() {\n"), p("x\n"), p("}\n")],
+        vec![p("a {\n"), l("//"), p("}\n"), p("b\n")],
+        vec![l("text {"), p("\n"), p("y {\n"), l("}"), p(" z {\n"), p("w\n"), p("}\n}\n")],
+        vec![p("m {\n"), l("/// doc"), Op::Write(2, vec![" if c".into(), "d;\n".into()]), p("}\n")],
     ]
 }
 
@@ -885,6 +998,11 @@ fn run_case(rng: &mut Rng, idx: u64, rep: &mut Report, seed: u64) {
     rep.eval();
     rep.count(&format!("mode:{mode_name}"));
     rep.count_n("fragments", evs.iter().filter(|e| matches!(e, Ev::Frag { .. })).count() as u64);
+
+    // (3) metamorphic: literal content is irrelevant to indentation / comment decisions
+    if !literal_twin_monitor(&ops, &mut src, rep, &replay) {
+        return;
+    }
 
     // (1) text preservation, inner sources first
     let mut text_ok = true;
